@@ -77,3 +77,25 @@ func TestKFC09ConstGroup(t *testing.T) {
 		cb.Val(fmtPkg.Ref("Println")).Val(c).Call(1).EndStmt()
 	})
 }
+
+// func f(fmt int) { fmt.Println(fmt) }
+func TestKFC09ParamName(t *testing.T) {
+	pkg := gogen.NewPackage("", "main", nil)
+	fmtPkg := pkg.Import("fmt")
+	param := types.NewParam(token.NoPos, pkg.Types, "fmt", types.Typ[types.Int])
+	cb := pkg.NewFunc(nil, "f", types.NewTuple(param), nil, false).BodyStart(pkg)
+	cb.Val(fmtPkg.Ref("Println")).Val(param).Call(1).EndStmt().End()
+	var b bytes.Buffer
+	if err := gogen.WriteTo(&b, pkg, ""); err != nil {
+		t.Fatal(err)
+	}
+	fset := token.NewFileSet()
+	f, err := parser.ParseFile(fset, "out.go", b.Bytes(), 0)
+	if err != nil {
+		t.Fatalf("emitted file does not parse: %v\n%s", err, b.String())
+	}
+	conf := types.Config{Importer: goimporter.Default()}
+	if _, err := conf.Check("main", fset, []*ast.File{f}, nil); err != nil {
+		t.Errorf("parameter name: emitted file does not type-check: %v\n%s", err, b.String())
+	}
+}
